@@ -5,7 +5,8 @@
 //!   * `<ip>`: `a.b.c.d` or eight `:`-separated hex groups; `<port>` 0 = an ephemeral one (printed back as `p=<port>`)
 //!   * `<timeouts>`: `-` (no settings: the defaults) or `<read>,<write>,<connect>`, each `-` or `<secs>:<nanos>`
 //!   * `<call>`: `eco` (the real `eco::query_with_timeout_and_extra_settings`, path argument ignored), `json`
-//!     (`HttpClient::new` + `get_json::<eco::Root>(path)`), `raw` (`HttpClient::new` + `get(path)`)
+//!     (`HttpClient::new` + `get_json::<eco::Root>(path)`), `raw` (`HttpClient::new` + `get(path)`), `fromurl`
+//!     (`HttpClient::from_url("http://<host or the address>:<port>/ignored?x=1#frag")` + `get_json(path)`)
 //!   * `<behaviour>` of the listener, one per connection it expects, `+`-separated (see `parse_behaviour`)
 //!   * `h=`: a header of the `HttpSettings`; `rh=`: a header of the request (`json` / `raw` only)
 //! Output: `p=<port> <result> ;; N<connections> <hex of request head>|… ;; T<elapsed ms>`
@@ -176,7 +177,7 @@ fn parse_case(args: &[&str]) -> Option<Case> {
             return None;
         }
     }
-    if !["eco", "json", "raw"].contains(&c.call.as_str()) {
+    if !["eco", "json", "raw", "fromurl"].contains(&c.call.as_str()) {
         return None;
     }
     Some(c)
@@ -188,6 +189,24 @@ fn run_client(c: &Case, addr: &SocketAddr) -> String {
         "eco" => {
             let extra = c.host.clone().map(|h| ExtraRequestSettings::default().set_hostname(h).into());
             let r = eco::query_with_timeout_and_extra_settings(&addr.ip(), Some(addr.port()), &c.timeouts, extra);
+            show_res(&r, crate::small::show_eco)
+        }
+        "fromurl" => {
+            let host = c.host.clone().unwrap_or_else(|| {
+                match addr.ip() {
+                    IpAddr::V4(ip) => ip.to_string(),
+                    IpAddr::V6(ip) => format!("[{ip}]"),
+                }
+            });
+            let url = format!("http://{}:{}/ignored?x=1#frag", host, addr.port());
+            let hs: Vec<(&str, &str)> = c.headers.iter().map(|(a, b)| (a.as_str(), b.as_str())).collect();
+            let mut client = match VHttpClient::from_url(url.as_str(), &c.timeouts, if hs.is_empty() { None } else { Some(hs) }) {
+                Ok(cl) => cl,
+                Err(e) => return format!("ERR {}", kind_name(&e.kind)),
+            };
+            let rh: Vec<(&str, &str)> = c.request_headers.iter().map(|(a, b)| (a.as_str(), b.as_str())).collect();
+            let rh_opt = if rh.is_empty() { None } else { Some(&rh[..]) };
+            let r = client.get_json::<eco::Root>(&c.path, rh_opt).map(eco::Response::from);
             show_res(&r, crate::small::show_eco)
         }
         call => {
